@@ -52,7 +52,7 @@ private:
     std::size_t bucket = utils::find_last_bit_set(idx);
     assert(bucket < num_buckets);
     // bucket can be zero, so we have to use two shifts here.
-    idx ^= (1 << bucket) >> 1;
+    idx ^= (static_cast<std::size_t>(1) << bucket) >> 1;
     return _data[bucket][idx];
   }
 
@@ -110,8 +110,8 @@ void growing_circular_array<T, MinCapacity, Buckets>::grow(std::size_t bottom, s
     if (oldI != newI) {
       auto oldBit = utils::find_last_bit_set(oldI);
       auto newBit = utils::find_last_bit_set(newI);
-      auto* v = _data[oldBit][oldI ^ ((1 << (oldBit)) >> 1)].load(std::memory_order_relaxed);
-      _data[newBit][newI ^ ((1 << (newBit)) >> 1)].store(v, std::memory_order_relaxed);
+      auto* v = _data[oldBit][oldI ^ ((static_cast<std::size_t>(1) << (oldBit)) >> 1)].load(std::memory_order_relaxed);
+      _data[newBit][newI ^ ((static_cast<std::size_t>(1) << (newBit)) >> 1)].store(v, std::memory_order_relaxed);
     } else {
       // Make sure we don't iterate through useless indices
       break;
